@@ -49,6 +49,10 @@ ZOO = [
     _c('births-own-dt', {'own-dt', 'births', 'global-rng'}, dt=0.5, dur=4, diseases=[SIS], networks=[RND], demographics=[dict(type='births', birth_rate=40, dt=1.0)]),
     _c('week-module-in-year-sim', {'own-dt', 'unit'}, start=2003.0, dt=0.25, dur=2.0, diseases=[dict(SIS, unit='week', dt=4)], networks=[RND]),
     _c('randomnet-own-dt', {'own-dt', 'network'}, dt=0.5, dur=5, diseases=[SIS], networks=[dict(type='random', n_contacts=4, dur=0, dt=1.0)]),
+    _c('module-later-start-date-sim', {'own-dt', 'unit', 'calendar'}, unit='day', dt=1, start='2020-01-01', dur=40, diseases=[dict(SIS, start='2020-01-15')], networks=[RND]),
+    _c('module-points-past-sim-end', {'own-dt', 'dt'}, dt=1.0, dur=4.5, diseases=[dict(SIS, dt=0.5)], networks=[RND]),
+    _c('routine-vx-own-dt', {'own-dt', 'intervention'}, dt=0.5, dur=8, diseases=[SIR0], networks=[RND],
+       interventions=[dict(type='sir_vx', prob=0.4, efficacy=0.8, start_year=2002, end_year=2006, dt=1.0)]),
     # demographics
     _c('births-deaths', {'births', 'deaths', 'global-rng'}, dt=0.5, dur=5, diseases=[SIR], networks=[RND],
        demographics=[dict(type='births', birth_rate=40), dict(type='deaths', death_rate=30)]),
@@ -58,6 +62,12 @@ ZOO = [
        demographics=[dict(type='pregnancy', fertility_rate=100, burnin=False)]),
     _c('pregnancy-monthly', {'pregnancy', 'dt'}, dt=1 / 12, dur=1.0, diseases=[SIS], networks=[RND],
        demographics=[dict(type='pregnancy', fertility_rate=150, burnin=True), dict(type='deaths', death_rate=60)]),
+    _c('pregnancy-gestation-in-days', {'pregnancy', 'unit'}, dt=0.2, dur=2.0, diseases=[SIS], networks=[RND, dict(type='maternal')],
+       demographics=[dict(type='pregnancy', fertility_rate=150, dur_pregnancy=(270, 'day'), burnin=True), dict(type='deaths', death_rate=40)]),
+    _c('pregnancy-fifth-year-steps', {'pregnancy', 'dt'}, dt=0.2, dur=2.4, diseases=[SIS], networks=[dict(type='mf', duration=3), dict(type='maternal')],
+       demographics=[dict(type='pregnancy', fertility_rate=150, p_neonatal_death=0.3, burnin=True), dict(type='deaths', death_rate=60)]),
+    _c('pregnancy-own-dt', {'pregnancy', 'own-dt'}, dt=0.5, dur=3.0, diseases=[SIS], networks=[RND],
+       demographics=[dict(type='pregnancy', fertility_rate=150, dt=0.25, burnin=True)]),
     # networks and routes
     _c('dict-beta-zero-entry', {'network', 'dict-beta'}, diseases=[dict(SIS, beta=dict(random=0.3, mf=0.0, static=0.1))],
        networks=[RND, dict(type='mf', duration=3), dict(type='static', n_contacts=2)]),
